@@ -72,10 +72,39 @@ def e_map(pairs):
     return head(5, len(pairs)) + b''.join(k + v for k, v in pairs)
 
 
-def e_constr(i, fields):
+def e_constr(i, fields, compact=False):
+    """constructor i: tags 121..127 for 0..6; for 7..127 either the general form 102 [i, fields] or (compact) the tags
+    1280..1400, which is what a PlutusData dataclass emits"""
     if i < 7:
         return head(6, 121 + i) + e_list(fields)
+    if compact and i < 128:
+        return head(6, 1280 + i - 7) + e_list(fields)
     return head(6, 102) + head(4, 2) + e_int(i) + e_list(fields)
+
+
+# map keys of Plutus data: integers and byte strings of several encoded lengths, so that insertion order, bytewise
+# order and canonical (length-first) order all differ
+KEY_INTS = [0, 1, 2, 5, 23, 24, 25, 255, 256, 1000, 65536, -1, -2, -24, -25, -257]
+KEY_BYTES = [b'', b'a', b'b', b'z', b'ab', b'zz', b'\x00', b'\xff', b'abc', b'\x00\x00', b'key-with-24-bytes-------', b'k' * 28]
+
+
+def rand_keys(rng, n):
+    """n distinct map keys (CBOR bytes) in random order; distinct as Python values too (ints vs bytes never collide)"""
+    style = rng.randint(0, 3)
+    pool = ([e_int(k) for k in KEY_INTS] if style == 0 else [e_bytes(k) for k in KEY_BYTES] if style == 1
+            else [e_int(k) for k in KEY_INTS] + [e_bytes(k) for k in KEY_BYTES])
+    return rng.sample(pool, n)
+
+
+def rand_map(rng, depth, first=None):
+    """a map with 0..4 entries in INSERTION order (random: usually neither bytewise nor canonical order);
+    first = an entry that has to stay in first position"""
+    n = rng.choice([0, 1, 2, 2, 3, 3, 4])
+    keys = [k for k in rand_keys(rng, n) if first is None or k != first[0]]
+    if rng.random() < 0.15:
+        keys.sort()                                             # bytewise order: still not canonical when lengths differ
+    pairs = [(k, rand_pd(rng, depth - 1)) for k in keys]
+    return e_map(([first] if first else []) + pairs)
 
 
 def rand_pd(rng, depth=2):
@@ -88,9 +117,9 @@ def rand_pd(rng, depth=2):
     if k == 2:
         return e_list([rand_pd(rng, depth - 1) for _ in range(rng.randint(0, 3))])
     if k == 3:
-        n = rng.randint(0, 2)
-        return e_map([(e_int(i), rand_pd(rng, depth - 1)) for i in range(n)])
-    return e_constr(rng.choice([0, 1, 2, 6, 7, 12]), [rand_pd(rng, depth - 1) for _ in range(rng.randint(0, 3))])
+        return rand_map(rng, depth)
+    return e_constr(rng.choice([0, 1, 2, 6, 7, 12, 127, 128]), [rand_pd(rng, depth - 1) for _ in range(rng.randint(0, 3))],
+                    compact=rng.random() < 0.5)
 
 
 # datums that are FALSY as Python values when written the way a user writes them: 0, b'', {}, IndefiniteList([])
@@ -105,10 +134,15 @@ def rand_datum(rng):
 
 
 def datum_form(rng, b):
-    """DOMAIN RESTRICTION (explicit): a top-level definite-length array would be a plain Python list, which is not a
+    """'raw' = RawCBOR, 'prim' = the plain Python value (RawPlutusData around a constructor), 'pdata' = a constructor as
+    an instance of a PlutusData dataclass made for it (the driver falls back to 'prim' when the dataclass route cannot
+    produce these bytes, e.g. a general-form tag 102 for a small constructor id, and counts what it really built).
+    DOMAIN RESTRICTION (explicit): a top-level definite-length array would be a plain Python list, which is not a
     member of pycardano's Datum union (typeguard rejects it as TransactionOutput.datum); such datums stay RawCBOR."""
     if b[0] >> 5 == 4 and b[0] != 0x9f:
         return 'raw'
+    if b[0] >> 5 == 6:
+        return rng.choice(['prim', 'pdata', 'pdata', 'raw'])
     return rng.choice(['prim', 'prim', 'raw'])
 
 
@@ -120,8 +154,9 @@ def rdm_data(rng, rid):
     if k == 1:
         return e_list([e_int(rid)] + [rand_pd(rng, 1) for _ in range(rng.randint(0, 2))])
     if k == 2:
-        return e_constr(rng.choice([0, 1, 3, 9]), [e_int(rid)] + [rand_pd(rng, 1) for _ in range(rng.randint(0, 2))])
-    return e_map([(e_int(rid), rand_pd(rng, 1))])
+        return e_constr(rng.choice([0, 1, 3, 9]), [e_int(rid)] + [rand_pd(rng, 2) for _ in range(rng.randint(0, 2))],
+                        compact=rng.random() < 0.5)
+    return rand_map(rng, 2, first=(e_int(rid), rand_pd(rng, 1)))
 
 
 def blake(b, n):
@@ -228,7 +263,10 @@ def gen_scenario(rng, plain=False):
             t = tag
         if bad(0.02):
             t = (tag + 1) % 4
-        return dict(rid=rid, tag=t, data=rdm_data(rng, rid).hex(), units=units)
+        data = rdm_data(rng, rid)
+        # how the redeemer data is handed over: RawCBOR, the plain Python value, or a PlutusData dataclass instance
+        form = 'raw' if data[0] >> 5 == 4 and data[0] != 0x9f else rng.choice(['raw', 'prim', 'prim'] + ['pdata'] * (2 * (data[0] >> 5 == 6)))
+        return dict(rid=rid, tag=t, data=data.hex(), units=units, form=form)
 
     def holder(sid):
         """a reference UTxO carrying script sid"""
@@ -375,13 +413,30 @@ def gen_scenario(rng, plain=False):
                       off_start=rng.choice([None] * 5 + [-5000, -1, 0, 700]), off_ttl=rng.choice([None] * 5 + [0, 1, 3000, -700]),
                       mem_buf=buf[0], step_buf=buf[1],
                       pay=[rng.choice([3000000, 12000000, 40000000]) for _ in range(rng.choice([0, 0, 1, 1, 2]))])
-    cms = {}
+    # protocol_param.cost_models as the backends deliver it: keyed by parameter names in any dict order (Blockfrost,
+    # Ogmios), by zero-padded decimal strings (Ogmios v6 for PlutusV3), or by INTEGER positions (cardano-cli reporting
+    # lists: {i: v for i, v in enumerate(...)}) of lengths around 10 / 100 and of real size.  JSON has no integer keys:
+    # the languages listed in cm_int_keys have their keys converted with int() by the driver.
+    # DOMAIN (explicit): integer positions are 0..n-1; their dict order is ascending (what enumerate gives), scrambled
+    # only for PlutusV1, whose parameters the code sorts; one dict never mixes str and int keys (sorted() would raise).
+    cms, int_keys = {}, []
+    vals = [0, 1, 23, 24, 255, 256, 65536, 2 ** 31, 2 ** 40, -1, -300]
     for v in (1, 2, 3):
         if rng.random() < 0.85:
-            names = V1_NAMES[:] if v == 1 else [f'p{v}-{i:02d}-{rng.choice("abzAZ")}' for i in range(12)]
-            rng.shuffle(names)
-            cms[f'PlutusV{v}'] = {n: rng.choice([0, 1, 23, 24, 255, 256, 65536, 2 ** 31, 2 ** 40, -1, -300, rng.randint(0, 10 ** 7)])
-                                  for n in names[:rng.randint(3, len(names))]}
+            shape = rng.choice(['names', 'names', 'pos', 'pos', 'padded'])
+            if shape == 'names':
+                names = V1_NAMES[:] if v == 1 else [f'p{v}-{i:02d}-{rng.choice("abzAZ")}' for i in range(12)]
+                rng.shuffle(names)
+                names = names[:rng.randint(3, len(names))]
+            else:
+                n = rng.choice([2, 9, 10, 10, 11, 11, 12, 12, 13, 20, 21, 25, 101, 111, 166])
+                names = [str(i) if shape == 'pos' else f'{i:0{len(str(n))}d}' for i in range(n)]
+                if v == 1 and rng.random() < 0.4:
+                    rng.shuffle(names)
+                if shape == 'pos':
+                    int_keys.append(f'PlutusV{v}')
+            cms[f'PlutusV{v}'] = {n: (rng.choice(vals) if rng.random() < 0.3 else rng.randint(0, 10 ** 7)) for n in names}
+    S['cm_int_keys'] = int_keys
     S['cost_models'] = cms
     return S
 
@@ -506,12 +561,32 @@ ERR = {'InvalidArgumentException': 'EInvalidArg', 'AssertionError': 'EAssert', '
        'TransactionBuilderException': 'EBuilder'}
 
 
+def estimation_shifted(R):
+    """DOMAIN RESTRICTION (explicit, counted as estimation_tx_with_other_pointers, reported to the coordinator):
+    TransactionBuilder._estimate_execution_units builds the transaction it hands to the evaluator with a TEMPORARY builder
+    that runs coin selection AGAIN (with collateral and collateral return already set its fee estimate is larger); when
+    that adds an input sorting before a script input, the spend pointers of the evaluated transaction differ from the
+    builder's own and the answers, keyed 'tag:index', go to the wrong redeemer or to none ('Cannot find execution unit').
+    The slice model takes the evaluator's answers per redeemer (a_units) and does not contain the second selection: such
+    runs are outside it.  True iff some evaluated transaction carried another set of (tag, index) than the builder's."""
+    mine = R.get('ptrs_at_failure') if R.get('stage') == 'build' else \
+        sorted([tag, ix] for _, tag, ix, _, _ in R.get('rl') or [])
+    if mine is None:
+        return False
+    uniq = lambda l: sorted(set(map(tuple, l)))
+    return any(uniq(seen) != uniq(mine) for seen in R.get('eval_ptrs') or [])
+
+
 def classify_impl(R):
     """('op', i, e) | ('build', e) | ('outside',) | ('done',) | ('unmodelled', kind)"""
     if R['stage'] == 'ops':
         return ('op', R['op'], ERR[R['err']]) if R['err'] in ERR else ('unmodelled', R['err'])
+    if R['stage'] == 'done' and estimation_shifted(R):
+        return ('outside',)
     if R['stage'] == 'build':
         msg = R.get('msg', '')
+        if estimation_shifted(R):
+            return ('outside',)
         if R['err'] == 'ValueError' and 'is not in list' in msg:
             return ('build', 'EValue')
         if R['err'] == 'TransactionBuilderException' and 'Cannot find execution unit' in msg:
@@ -646,11 +721,12 @@ def correspond(ctx, n=None):
         key = k[0] + (':' + str(k[-1]) if k[0] in ('op', 'build', 'unmodelled') else '')
         stages[key] = stages.get(key, 0) + 1
         if k[0] == 'outside':
-            m = R['err'] + ': ' + R.get('msg', '')[:60]
+            m = 'execution units estimated on a transaction with other redeemer pointers (second coin selection)' \
+                if estimation_shifted(R) else R['err'] + ': ' + R.get('msg', '')[:60]
             outside_msgs[m] = outside_msgs.get(m, 0) + 1
         for op in S['ops']:
             hist[op[0]] = hist.get(op[0], 0) + 1
-    built = [i for i, R in enumerate(results) if R.get('stage') == 'done']
+    built = [i for i, R in enumerate(results) if R.get('stage') == 'done' and not estimation_shifted(R)]
     if len(built) < 0.5 * len(cases):
         raise RuntimeError(f'only {len(built)} of {len(cases)} scenarios were built: generator or driver problem; {outside_msgs}')
     nontriv = {C.canon_hash(cases[i]) for i in built if n_redeemers(results[i]) >= 1}
@@ -695,6 +771,7 @@ def correspond(ctx, n=None):
         samples=[cases[len(corpus)]], corpus_cases=len(corpus),
         stage_histogram=stages, outside_slice=outside_msgs, op_histogram=hist, built=len(built), built_shapes=shape,
         reward_pointer_undecided_mixed_accounts=len(undec),
+        estimation_tx_with_other_pointers=sum(1 for R in results if 'driver_error' not in R and estimation_shifted(R)),
         known_region_hits=known_hits,
         compared='error kind and failing call; body inputs (order), reference inputs (set), certificates, validity interval, the '
                  'builder\'s redeemer objects (id, tag, index, units) and the shipped redeemers, the four script buckets of '
